@@ -26,8 +26,11 @@ RULE = ("case = (scenario, operation): FileAccessor under flat|deep x gzip on/of
         "buffering strategies x raw|gzip shard encodings: store chunks (out of order) + "
         "close, fetch_chunk through a fresh accessor, file operations.  For each case EVERY "
         "I/O call position k of the operation x every plausible errno (fault runs) and every "
-        "position x {before, after} (crash runs in a forked process) is executed.  Plus HTTP "
-        "fault scripts.  distinct = (case, k, errno) resp. (case, k, when); non-trivial = "
+        "position x {before, after} (crash runs in a forked process) is executed; write-side "
+        "operations also run under nine kernel file-size limits (RLIMIT_FSIZE: real short "
+        "writes + EFBIG).  Plus HTTP fault scripts, and system-call faults (ENOSPC / EACCES / "
+        "EIO on reads) and SIGKILLs injected with strace into the real volume-to-precomputed, "
+        "compute-scales and convert-chunks processes.  distinct = (case, k, errno) resp. (case, k, when); non-trivial = "
         "the fault or crash really fired")
 ASSUMPTIONS = [
     "the repository is pure Python: all its file-system effects go through the interposed "
@@ -52,12 +55,14 @@ MANIFEST = {
     "or all datasets.",
     "level_note": "Trusted: harness/monitors/iohook.py intercepts all I/O of the pure-Python "
     "code under test - cross-checked in every run at system-call level (strace) by a "
-    "completeness audit, and complemented by strace inject= faults around the real "
-    "volume-to-precomputed process; faults inside Pillow/nibabel and OS-level reordering "
-    "after power loss are out of reach.",
+    "completeness audit, and complemented by (a) real kernel short writes under RLIMIT_FSIZE "
+    "and (b) strace inject= faults and SIGKILLs around the real volume-to-precomputed, "
+    "compute-scales and convert-chunks processes (sampled call positions); faults inside "
+    "Pillow/nibabel and OS-level reordering after power loss are out of reach.",
     "technique": "runtime fault injection and crash-point enumeration at interposed I/O "
-    "calls (Python level) and at system calls (strace inject=), with an outcome-based oracle "
-    "and a fresh-reader audit",
+    "calls (Python level), under kernel resource limits (RLIMIT_FSIZE) and at system calls "
+    "(strace inject= errors and SIGKILL on the real command processes), with an outcome-based "
+    "oracle and a fresh-reader audit",
     "design_ref": "DESIGN.md section 2, C18",
 }
 REACH = ["FileAccessor.store_chunk", "FileAccessor.fetch_chunk", "FileAccessor.store_file",
@@ -104,8 +109,11 @@ def gen_cases(tier, seed):
     for k in range(2 if tier == "quick" else 8):
         tail.append({"kind": "strace_cli", "seed": rnd.randrange(2 ** 32),
                      "gzip": k % 2 == 0, "max_points": 10 if tier == "quick" else 60})
+    for k in range(2 if tier == "quick" else 12):
+        tail.append({"kind": "strace_pipeline", "seed": rnd.randrange(2 ** 32),
+                     "command": ("scales", "convert")[k % 2], "gzip": k % 4 < 2,
+                     "max_points": 12 if tier == "quick" else 60})
     return cases + tail
-    return cases
 
 
 # --------------------------------------------------------------------------- scenarios
@@ -907,7 +915,202 @@ def run_strace_cli(case):
             "sample": {"case": case, "points": obs["syscall_injection_points"]}}
 
 
+
+def run_strace_pipeline(case):
+    """System-call level faults AND kills (strace -e inject=...:error= / :signal=SIGKILL)
+    around the real compute-scales and convert-chunks processes, on the read side too (the
+    n-th read of a source chunk fails with EIO).  Oracle: with exit status 0 every chunk the
+    command is responsible for is present and equals the fault-free result; with any other
+    outcome (failure status, killed) a fresh reader never decodes wrong voxels from any
+    chunk, and everything that was in the directory before is intact."""
+    import itertools
+    import re
+    import subprocess
+    import sys
+
+    import numpy as np
+    from neuroglancer_scripts import accessor as accessor_mod
+    from neuroglancer_scripts import file_accessor, precomputed_io
+    top = tempfile.mkdtemp(prefix="c18p-")
+    cmd = case["command"]
+    obs = {"cases": 1, "kinds": {"strace_pipeline": 1}, "pipeline_fault_runs": 0,
+           "pipeline_kill_runs": 0, "pipeline_failure_status": 0, "pipeline_absorbed": 0,
+           "pipeline_killed": 0, "pipeline_injection_points": 0,
+           "pipeline_commands": {cmd: 1}, "pipeline_read_faults": 0}
+    v = []
+    try:
+        rnd = random.Random(case["seed"])
+        shape = [rnd.randint(17, 30), rnd.randint(9, 20), rnd.randint(3, 9)]
+        half = [-(-s // 2) for s in shape]
+        dt = "uint8" if cmd == "scales" else "uint32"
+        vol = np.random.default_rng(case["seed"]).integers(
+            0, 200, size=(1, shape[2], shape[1], shape[0])).astype(dt)
+        scales = [{"key": "s0", "size": shape, "chunk_sizes": [[8, 8, 8]], "encoding": "raw",
+                   "resolution": [1, 1, 1], "voxel_offset": [0, 0, 0]},
+                  {"key": "s1", "size": half, "chunk_sizes": [[8, 8, 8]], "encoding": "raw",
+                   "resolution": [2, 2, 2], "voxel_offset": [0, 0, 0]}]
+        info = {"type": "image", "data_type": dt, "num_channels": 1,
+                "scales": scales if cmd == "scales" else scales[:1]}
+        gz = case["gzip"]
+        opts = ["--flat"] + ([] if gz else ["--no-gzip"])
+        env = dict(os.environ, TQDM_DISABLE="1")
+
+        def grid(sc):
+            X, Y, Z = sc["size"]
+            return [(x, min(x + 8, X), y, min(y + 8, Y), z, min(z + 8, Z))
+                    for x, y, z in itertools.product(range(0, X, 8), range(0, Y, 8),
+                                                     range(0, Z, 8))]
+        # template source dataset (scale s0 written with the library, outside of any fault)
+        tmpl = os.path.join(top, "tmpl")
+        acc = file_accessor.FileAccessor(tmpl, flat=True, gzip=gz)
+        pio = precomputed_io.get_IO_for_new_dataset(info, acc)
+        for c in grid(scales[0]):
+            pio.write_chunk(vol[:, c[4]:c[5], c[2]:c[3], c[0]:c[1]], "s0", c)
+
+        def fresh(name):
+            d = os.path.join(top, name)
+            if cmd == "scales":
+                shutil.copytree(tmpl, d)
+                return d, [sys.executable, "-W", "ignore", "-m",
+                           "neuroglancer_scripts.scripts.compute_scales", *opts,
+                           "--downscaling-method", "stride", d]
+            os.makedirs(d)
+            dinfo = json.loads(json.dumps(info))
+            dinfo["scales"][0]["encoding"] = "compressed_segmentation"
+            dinfo["scales"][0]["compressed_segmentation_block_size"] = [4, 4, 4]
+            dinfo["type"] = "segmentation"
+            with open(os.path.join(d, "info"), "w") as f:
+                json.dump(dinfo, f)
+            return d, [sys.executable, "-W", "ignore", "-m",
+                       "neuroglancer_scripts.scripts.convert_chunks", *opts, tmpl, d]
+
+        def decode(d):
+            """-> {(key, coords): array | None}, or None when the dataset cannot be opened"""
+            try:
+                pio_ = precomputed_io.get_IO_for_existing_dataset(
+                    accessor_mod.get_accessor_for_url(d))
+            except Exception:  # noqa: BLE001
+                return None
+            out = {}
+            for sc in pio_.info["scales"]:
+                for c in grid(sc):
+                    try:
+                        out[(sc["key"], c)] = np.array(pio_.read_chunk(sc["key"], c))
+                    except Exception:  # noqa: BLE001
+                        out[(sc["key"], c)] = None
+            return out
+        d0, argv0 = fresh("dry")
+        log = os.path.join(top, "dry.log")
+        try:
+            p = subprocess.run(["strace", "-f", "-qq", "-y", "-e",
+                                "trace=write,openat,mkdir,read", "-o", log, *argv0],
+                               capture_output=True, text=True, timeout=300, env=env)
+        except (OSError, subprocess.TimeoutExpired) as exc:
+            obs["strace_error"] = [f"{type(exc).__name__}: {exc}"]
+            return {"violations": [], "obs": obs}
+        if p.returncode != 0:
+            obs["strace_error"] = [p.stderr[-300:]]
+            return {"violations": [], "obs": obs}
+        ref = decode(d0)
+        if ref is None or any(a is None for a in ref.values()):
+            return {"violations": [{"kind": "fault-free-command-left-unreadable-chunks",
+                                    "detail": f"{cmd} {opts}"}], "obs": obs}
+        # the fault-free result itself: s1 = every second voxel / the same labels re-encoded
+        for (key, c), arr in ref.items():
+            if key == "s0" or cmd == "convert":
+                exp = vol[:, c[4]:c[5], c[2]:c[3], c[0]:c[1]]
+            else:
+                exp = vol[:, ::2, ::2, ::2][:, c[4]:c[5], c[2]:c[3], c[0]:c[1]]
+            if not np.array_equal(arr, exp):
+                return {"violations": [{"kind": "fault-free-run-loses-or-changes-data",
+                                        "detail": f"{cmd} {opts}: {key} {c}"}], "obs": obs}
+        counters = {"write": 0, "openat": 0, "mkdir": 0, "read": 0}
+        points = []
+        pat = re.compile(r"^\d+\s+(write|openat|mkdir|read)\((.*)$")
+        src_dir = d0 if cmd == "scales" else tmpl
+        with open(log) as f:
+            for line in f:
+                m = pat.match(line)
+                if not m:
+                    continue
+                name = m.group(1)
+                counters[name] += 1
+                head = m.group(2)[:400]
+                if name == "read":
+                    if src_dir + "/s0" in head:
+                        points.append((name, counters[name]))
+                elif d0 in head and (name != "openat" or "O_WRONLY" in line
+                                     or "O_RDWR" in line):
+                    points.append((name, counters[name]))
+        obs["pipeline_injection_points"] = len(points)
+        rnd.shuffle(points)
+        before = {k: a for k, a in ref.items() if k[0] == "s0"} if cmd == "scales" else {}
+        wside = [pt for pt in points if pt[0] != "read"][:case["max_points"] * 2 // 3]
+        rside = [pt for pt in points if pt[0] == "read"][:case["max_points"] // 3]
+        for n, (name, k) in enumerate(wside + rside):
+            d, argv = fresh(f"run{n}")
+            kill = (n % 2 == 1) and name != "read"
+            if kill:
+                inj = f"inject={name}:signal=SIGKILL:when={k}"
+                label = f"{cmd}: SIGKILL at {name} #{k}"
+            else:
+                err = {"write": "ENOSPC", "openat": "EACCES", "mkdir": "EACCES",
+                       "read": "EIO"}[name]
+                inj = f"inject={name}:error={err}:when={k}"
+                label = f"{cmd}: {err} at {name} #{k}"
+            label += f" ({'gzip' if gz else 'plain'} flat files)"
+            try:
+                p = subprocess.run(["strace", "-f", "-qq", "-o", "/dev/null", "-e",
+                                    f"trace={name}", "-e", inj, *argv], capture_output=True,
+                                   text=True, timeout=300, env=env)
+            except subprocess.TimeoutExpired:
+                obs["pipeline_timeouts"] = obs.get("pipeline_timeouts", 0) + 1
+                shutil.rmtree(d, ignore_errors=True)
+                continue
+            if kill:
+                obs["pipeline_kill_runs"] += 1
+            else:
+                obs["pipeline_fault_runs"] += 1
+                obs["pipeline_read_faults"] += int(name == "read")
+            got = decode(d)
+            if got is None:
+                got = {}
+            wrong = [k_ for k_, a in got.items() if a is not None
+                     and not np.array_equal(a, ref[k_])]
+            missing = [k_ for k_ in ref if got.get(k_) is None]
+            if wrong:
+                v.append({"kind": "wrong-voxels-after-system-call-fault",
+                          "detail": f"{label}: chunk {wrong[0]} decodes to values that differ "
+                          f"from the fault-free result (exit status {p.returncode})"})
+            lost = [k_ for k_ in before if got.get(k_) is None]
+            if lost:
+                v.append({"kind": "earlier-data-lost-or-changed-after-fault",
+                          "detail": f"{label}: source chunk {lost[0]} can no longer be read "
+                          f"(exit status {p.returncode})"})
+            if p.returncode == 0:
+                obs["pipeline_absorbed"] += 1
+                if missing:
+                    v.append({"kind": "command-succeeded-although-a-system-call-failed",
+                              "detail": f"{label}: exit status 0 but {len(missing)} of "
+                              f"{len(ref)} chunks cannot be read, e.g. {missing[0]}"})
+            elif p.returncode in (-9, 137):
+                obs["pipeline_killed"] += 1
+            else:
+                obs["pipeline_failure_status"] += 1
+            shutil.rmtree(d, ignore_errors=True)
+            if len(v) > 3:
+                break
+    finally:
+        shutil.rmtree(top, ignore_errors=True)
+    n_runs = obs["pipeline_fault_runs"] + obs["pipeline_kill_runs"]
+    return {"violations": v[:4], "obs": obs, "evals": max(1, n_runs),
+            "distinct_disjoint": n_runs,
+            "sample": {"case": case, "points": obs["pipeline_injection_points"]}}
+
+
 def run_case(case):
+    if case["kind"] == "strace_pipeline":
+        return run_strace_pipeline(case)
     if case["kind"] == "strace":
         return run_strace(case)
     if case["kind"] == "strace_cli":
@@ -919,7 +1122,12 @@ def gates(obs, tier):
     calls = obs.get("calls", {})
     ck = obs.get("call_kinds", {})
     return {
-        "file_and_sharded_and_http": len(obs.get("kinds", {})) == 5,
+        "file_and_sharded_and_http": len(obs.get("kinds", {})) == 6,
+        "system_call_faults_and_kills_on_the_pipeline_commands":
+        len(obs.get("pipeline_commands", {})) == 2
+        and obs.get("pipeline_fault_runs", 0) >= 8 and obs.get("pipeline_kill_runs", 0) >= 2
+        and obs.get("pipeline_failure_status", 0) > 0 and obs.get("pipeline_killed", 0) > 0
+        and obs.get("pipeline_read_faults", 0) > 0,
         "system_call_faults_on_the_real_command": obs.get("syscall_fault_runs", 0) >= 10
         and obs.get("syscall_faults_leading_to_failure_status", 0) > 0,
         "interposition_complete_at_system_call_level": obs.get("strace_available", 0) > 0
